@@ -4,6 +4,7 @@ CONSTANTS
   P = 131
   IdSeq <- IdsId
   Coefs = {1}
+  FreshRedeal = FALSE
   HSet = {1}
 INVARIANT Report
 CHECK_DEADLOCK FALSE
